@@ -21,6 +21,7 @@ mod c15;
 mod c16;
 mod c17lsp;
 mod c18;
+mod c18asm;
 mod c20;
 mod e2;
 mod corpus;
